@@ -281,6 +281,11 @@ func (t *TxWatcher) AddWaitForCsvTx(swapId string, txId string, vout uint32, hei
 		// could lead to stale swaps that might not resolve.
 		log.Infof("[TxWatcher] Swap: %s: Could not subscribe tx watcher to tx %s, %v", swapId, txId, err)
 		cancel()
+		// Nothing is watching: a later registration must not be taken
+		// for a re-subscription.
+		t.Lock()
+		delete(t.waitForCsvWatchers, swapId)
+		t.Unlock()
 		return
 	}
 
